@@ -132,6 +132,20 @@ pub fn strategy() -> impl Strategy<Value = Case> {
     })
 }
 
+/// the same case space, addressed by the words of a fuzz input (see `crate::words`); `own`: route (b)
+pub fn case_from_words(w: &mut crate::words::Words, own: bool) -> Case {
+    use crate::words::draw;
+    Case {
+        method: draw(&gen::sel(METHODS), w.next()),
+        path: draw(&path(), w.next()),
+        query: draw(&query(), w.next()),
+        headers: draw(&header_set(if own { ADDED_BY_BUILD_REQUEST } else { &[] }), w.next()),
+        body: draw(&body(), w.next()),
+        key: draw(&key_hex(), w.next()),
+        guid: draw(&guid(), w.next()),
+    }
+}
+
 pub const RULE: &str = "generator: method x path (case flips, %xx) x query pieces from colliding pools (duplicate keys, exact duplicate pairs, valueless keys with and without '=', empty keys, keys that are prefixes of other keys so that key+value concatenations collide, mixed case, %xx) x header set (unique names, any case, values with surrounding blanks) x body (empty, binary, '\\n'-heavy, KB-sized) x random 32-byte key in either hex case x guid. oracle: (a) as_sig_input == independent canonical string (exact parameter multiset; either admissible order), every single-component change changes the string, header order/name-case/blank padding does not; (b) build_request's MAC == HMAC_ref(key, canon_ref(parts of the built request)) == compute_signature(as_sig_input(those parts)). non-trivial: >= 2 parameters or a valueless/duplicate/prefix-related/escaped/mixed-case one, or a header with surrounding blanks or upper-case name, or a body containing a line feed; distinct by hash of the case.";
 
 fn target_of(c: &Case) -> String {
